@@ -75,3 +75,40 @@ func VerifC19Scope(tmpl string, withCallOption, marshalSide bool) {
 	r, ok2 := GetOption(dec.Options(), RejectUnknownMembers)
 	vrt.Assert("C19/scope/call-option-not-leaked", !r && !ok2)
 }
+
+type zz19emb struct {
+	Q int8 `json:"q,string"`
+	R int8 `json:"r"`
+}
+
+type zz19Nil struct {
+	*zz19emb      // nil pointer to an unexported struct type: its fields cannot be set
+	B        int8 `json:"b"`
+}
+
+// VerifC19ScopeNilEmbedded: as VerifC19Scope for a struct whose string-tagged member lies
+// behind a nil embedded pointer to an unexported struct (Unmarshal cannot allocate it and
+// reports an error): the decoder's own options are intact after that error too.
+func VerifC19ScopeNilEmbedded(tmpl string, withCallOption bool) {
+	b := vrt.Template("b", tmpl)
+	dec := jsontext.NewDecoder(bytes.NewReader(b))
+	xd := export.Decoder(dec)
+	before := xd.Struct
+	var v zz19Nil
+	var err error
+	if withCallOption {
+		err = UnmarshalDecode(dec, &v, RejectUnknownMembers(true))
+	} else {
+		err = UnmarshalDecode(dec, &v)
+	}
+	vrt.Observe("errnil", err == nil)
+	if err == nil {
+		vrt.Cover("first-ok")
+	} else {
+		vrt.Cover("first-error")
+	}
+	vrt.Assert("C19/scope/decoder-flags-restored", xd.Struct.Flags == before.Flags)
+	vrt.Assert("C19/scope/decoder-values-restored", xd.Struct.Format == before.Format)
+	sn, ok := GetOption(dec.Options(), StringifyNumbers)
+	vrt.Assert("C19/scope/tag-flag-not-leaked", !sn && !ok)
+}
